@@ -18,6 +18,9 @@ import subprocess
 import multiprocessing
 import traceback
 
+if hasattr(sys, 'set_int_max_str_digits'):
+    sys.set_int_max_str_digits(0)          # solver models can carry rationals with tens of thousands of digits
+
 HERE = os.path.dirname(os.path.dirname(os.path.abspath(__file__)))
 if HERE not in sys.path:
     sys.path.insert(0, HERE)
@@ -30,6 +33,8 @@ def new_result(name):
 
 def _init_worker(modname, tier, seed, path):
     import warnings
+    if hasattr(sys, 'set_int_max_str_digits'):
+        sys.set_int_max_str_digits(0)
     import logging
     warnings.filterwarnings('ignore')
     logging.disable(logging.CRITICAL)          # scared logs through the logging module; the checks' stdout carries the verdict lines only
